@@ -18,9 +18,11 @@ Reading guide.
   the moment the iterator is **created** — the later history may leave a batch open, etc.
 * `HOp` / `hrun` (`Proofs/IterStableMerge.lean`): a history of plain operations
   (`Put/Delete/Get/Sync`), batch operations (`NewBatch/Put/Delete/Get/Commit`, dropping the batch)
-  and `Merge` runs (argument: the order in which Go's map iteration visits the older files), in any
-  interleaving, **with no side condition at all** (any key/value sizes, any batch ids, `Merge` with
-  any outcome, with or without an open batch).
+  `Merge` runs (argument: the order in which Go's map iteration visits the older files) and
+  `Backup`s (into any directory), in any interleaving, **with no side condition at all** (any
+  key/value sizes, any batch ids, `Merge` with any outcome, with or without an open batch).
+  Together with the pure queries (`Stat`, `ListKeys`, `Fold`, `NewIterator`, which do not change the
+  state) this is every call of the API except `Close`.
 * `Ev`, `transcript`, `specTranscript` (`Proofs/IterStableTranscript.lean`): iterator calls
   interleaved with such writes; the iterator is observed before the first and after every event.
 * A restart is not part of the claim: iterators do not survive `Close`.
@@ -87,7 +89,7 @@ theorem C10_engine_complete (s : St) (db : DB) (g : GDir) (hinv : Inv s db g) :
 
 /-- **C10_stable**.  Let `Inv s db g` hold when the snapshot is taken (`iterNew db pre rev`,
     `listKeys db`, `fold s db` all work on the items `(k, p)` of `db.index`).  After EVERY later
-    history `hist` of plain operations, batch operations and `Merge` runs, leading to
+    history `hist` of plain operations, batch operations, `Merge` runs and `Backup`s, leading to
     `s' = hrun s hist` with handle `db'`: every snapshot item still reads, through its captured
     position, exactly the value the key had at creation — although meanwhile `k` may have been
     overwritten or deleted, its file rotated away and merged. -/
@@ -128,7 +130,7 @@ theorem C10_fold_stable (s : St) (db : DB) (g : GDir) (hdb : s.db = some db) (hi
 
 /-- **C10_snapshot_transcript** (the final statement).  Create an iterator in a state satisfying
     the invariant, then run ANY interleaving `evs` of iterator calls (`Rewind / Next / Seek`) and
-    database writes (plain, batch, `Merge`).  The whole transcript — `Valid`, `Key` and the `Value`
+    database writes (plain, batch, `Merge`, `Backup`).  The whole transcript — `Valid`, `Key` and the `Value`
     read through the captured position in whatever state the database is in at that moment,
     observed before the first and after every event — equals the transcript of the abstract cursor
     over the *creation-time* mapping `fold s db` (which lists each key with `.val v`,
@@ -241,7 +243,7 @@ theorem admissible_of_seeksAtStart {V : Type} (calls : List Call) :
 Open `"d"` with a file-size limit of 70 bytes (two records per file), put four keys, create two
 iterators (forward without prefix; reverse with prefix `a`).  Then, interleaved with iterator calls:
 overwrite `a2`, delete `b1`, open a batch that overwrites `c1` and deletes `a1` and commit it, put
-further keys (rotations), run a `Merge`.  The iterator transcripts are evaluated and equal the
+further keys (rotations), run a `Merge`, back the directory up (elsewhere and onto itself).  The iterator transcripts are evaluated and equal the
 transcript over the creation-time mapping `a1=1 a2=2 b1=3 c1=4`. -/
 
 def kb (s : String) : ByteArray := s.toUTF8
@@ -256,7 +258,8 @@ def exS : St :=
 def exHist : List HOp :=
   [.op (.put (kb "a2") (kb "X")), .op (.del (kb "b1")),
    .op (.bnew false 7), .op (.bput (kb "c1") (kb "Y")), .op (.bdel (kb "a1")), .op .bcommit, .op .bdrop,
-   .op (.put (kb "e1") (kb "5")), .op (.put (kb "e2") (kb "6")), .merge [2, 0, 1, 3], .op (.put (kb "a0") (kb "0"))]
+   .op (.put (kb "e1") (kb "5")), .op (.put (kb "e2") (kb "6")), .merge [2, 0, 1, 3],
+   .backup "bk", .backup "d", .op (.put (kb "a0") (kb "0"))]
 
 /-- iterator calls interleaved with the history (the `Seek`s follow a `Rewind`) -/
 def exEvs : List Ev :=
@@ -264,7 +267,7 @@ def exEvs : List Ev :=
    .write (.op (.bnew false 7)), .write (.op (.bput (kb "c1") (kb "Y"))), .write (.op (.bdel (kb "a1"))),
    .call .next, .write (.op .bcommit), .write (.op .bdrop), .call .next,
    .write (.op (.put (kb "e1") (kb "5"))), .write (.op (.put (kb "e2") (kb "6"))),
-   .write (.merge [2, 0, 1, 3]), .call .rewind, .call (.seek (kb "a2")), .write (.op (.put (kb "a0") (kb "0"))),
+   .write (.merge [2, 0, 1, 3]), .write (.backup "bk"), .write (.backup "d"), .call .rewind, .call (.seek (kb "a2")), .write (.op (.put (kb "a0") (kb "0"))),
    .call .next, .call .next, .call .next]
 
 def showRes : Res → String
@@ -303,19 +306,20 @@ def nFiles (s : St) (dir : String) : Option (List Nat) := (s.world.get dir).map 
 #guard nFiles exS "d" == some [0, 1]
 #guard nFiles (hrun exS exHist) "d" == some [0, 1, 2, 3, 4, 5, 6]
 #guard (nFiles (hrun exS exHist) "d-merge").isSome
+#guard nFiles (hrun exS exHist) "bk" == some [0, 1, 2, 3, 4, 5, 6]   -- the backup, taken before the last `Put`
 #guard ((hrun exS exHist).world.get "d-merge").map (fun d => d.marker.isSome) == some true
 #guard (match (hrun exS exHist).db with | some db => db.batch.isNone | none => false)
 -- the forward iterator without prefix: its transcript over the moving database …
 #guard exTranscript "" false ==
   [cell "a1" "1", cell "a2" "2", cell "a2" "2", cell "b1" "3", cell "b1" "3", cell "b1" "3", cell "b1" "3",
-   cell "b1" "3", cell "c1" "4", cell "c1" "4", cell "c1" "4", done, done, done, done,
+   cell "b1" "3", cell "c1" "4", cell "c1" "4", cell "c1" "4", done, done, done, done, done, done,
    cell "a1" "1", cell "a2" "2", cell "a2" "2", cell "b1" "3", cell "c1" "4", done]
 -- … is the transcript over the creation-time mapping
 #guard exTranscript "" false == exSpec "" false
 -- the reverse iterator with prefix `a`
 #guard exTranscript "a" true ==
   [cell "a2" "2", cell "a1" "1", cell "a1" "1", done, done, done, done, done, done, done, done, done, done,
-   done, done, cell "a2" "2", cell "a2" "2", cell "a2" "2", cell "a1" "1", done, done]
+   done, done, done, done, cell "a2" "2", cell "a2" "2", cell "a2" "2", cell "a1" "1", done, done]
 #guard exTranscript "a" true == exSpec "a" true
 -- admissibility of the calls, evaluated on the actual snapshot
 #guard (match exS.db with
